@@ -21,7 +21,9 @@
 (* rewrite { r ^/rw/<rest>$ ; to /nw/{1}?rq=1 }   (<rest> = a capture    *)
 (* group of any characters but LF) ;                                       *)
 (* header / X-Vocab "<ALL placeholders>" ; basicauth /auth alice pw ;      *)
-(* verifprobe (scripted innermost handler).                                *)
+(* proxy /px backend { header_upstream X-Up-Body "[{request_body}]" } (the *)
+(* backend reports the body it received) ; verifprobe (scripted innermost  *)
+(* handler).                                                               *)
 (*                                                                         *)
 (* Actions, one per step the code takes, in the order the chain runs:      *)
 (*   NetRead       net/http delivers the head: r.Host, r.URL, the body     *)
@@ -39,6 +41,9 @@
 (*                 exist yet                                               *)
 (*   BasicAuth     basicauth: Set("user", name), 401 or pass               *)
 (*   InnerRead InnerSleep InnerRespond   the scripted handler              *)
+(*   ProxyOutreq ProxyRule ProxyForward   proxy: the outgoing request is   *)
+(*                 made (X-Forwarded-For), the header_upstream rule is     *)
+(*                 expanded, the backend reads the outgoing request's body *)
 (*   LogFailover   log: status >= 400 came back unwritten                  *)
 (*   IpMask        log: Set("remote", masked) (sites p2, t2)               *)
 (*   LogEval       log: getSubstitution of ONE placeholder of the format   *)
@@ -66,7 +71,8 @@ CONSTANTS EMIT,          \* print one CASE line per finished exchange
           FIX_LOGSAFE,   \* log: CR / LF inside expanded values are written as \r \n
           FIX_BODY,      \* {request_body}: what it read ahead of the handlers is handed out again
           FIX_TLS13,     \* {tls_cipher}: TLS 1.3 suites have a name
-          FIX_NOUSER     \* basicauth: no user name supplied -> {user} stays absent (marker), not ""
+          FIX_NOUSER,    \* basicauth: no user name supplied -> {user} stays absent (marker), not ""
+          FIX_XFF        \* proxy: X-Forwarded-For is set on a copy of the header map, not on the incoming request's
 
 LF == "\n"
 CR == "\r"
@@ -139,9 +145,11 @@ PT(id) ==
       [] id = "/base/auth/z"  -> Us(<<"/", "base", "/", "auth", "/", "z">>)
       [] id = "/lim/p"        -> Us(<<"/", "lim", "/", "p">>)
       [] id = "/base/lim/p"   -> Us(<<"/", "base", "/", "lim", "/", "p">>)
+      [] id = "/px/p"         -> Us(<<"/", "px", "/", "p">>)
+      [] id = "/base/px/p"    -> Us(<<"/", "base", "/", "px", "/", "p">>)
 AllPaths == {"/", "/x", "/d/f.txt", "/d/", "/a%0Ab", "/a%0D%0Ab/c", "/c%2Fd%25", "/s%20t", "/%61", "/rw/x", "/rw/x%2Fy",
              "/rw/s%20t", "/rw/a%0Ab", "/rw/a%0Db", "/base", "/base/x", "/base/rw/x", "/base/a%0Ab", "/auth/z",
-             "/base/auth/z", "/lim/p", "/base/lim/p"}
+             "/base/auth/z", "/lim/p", "/base/lim/p", "/px/p", "/base/px/p"}
 Dec(us) == [i \in 1..Len(us) |-> us[i].c]
 Wr(us) == [i \in 1..Len(us) |-> us[i].w]
 
@@ -300,7 +308,7 @@ FamHdr ==
 FamBody ==
     {X(c, "-", "1.1", m, "origin", "a.b.test:{port}", p, "-", "-", "-", "-", b, ct, ch, i) :
         c \in (IF Quick THEN {"P"} ELSE {"P", "T13c"}),
-        m \in {"GET", "POST", "PUT"}, p \in (IF Quick THEN {"/x", "/lim/p"} ELSE {"/x", "/lim/p", "/base/lim/p"}),
+        m \in {"GET", "POST", "PUT"}, p \in (IF Quick THEN {"/x", "/lim/p", "/px/p"} ELSE {"/x", "/lim/p", "/base/lim/p", "/px/p", "/base/px/p"}),
         b \in (IF Quick THEN {"-", "small", "limover"} ELSE AllBodies \ BigBodies),
         ct \in (IF Quick THEN {"json", "two", "text"} ELSE AllCTypes), ch \in BOOLEAN, i \in {"plain", "read"}}
     \cup {X(c, "-", "1.1", "POST", "origin", DefHost(c), p, "-", "-", "-", "-", b, ct, FALSE, i) :
@@ -314,7 +322,7 @@ FamResp ==
 Nth(f, k) == f[(k % Len(f)) + 1]
 SeqPaths == <<"/", "/x", "/d/f.txt", "/d/", "/a%0Ab", "/a%0D%0Ab/c", "/c%2Fd%25", "/s%20t", "/%61", "/rw/x", "/rw/x%2Fy",
               "/rw/s%20t", "/rw/a%0Ab", "/rw/a%0Db", "/base", "/base/x", "/base/rw/x", "/base/a%0Ab", "/auth/z",
-              "/base/auth/z", "/lim/p", "/base/lim/p">>
+              "/base/auth/z", "/lim/p", "/base/lim/p", "/px/p", "/base/px/p">>
 SeqQueries == <<"-", "force", "q=v", "multi", "enc", "crlf", "bare", "brace">>
 SeqConns == <<"P", "T12", "T12c", "T13", "T13c", "P", "P">>
 SeqPlainHosts == <<"a.b.test:{port}", "a.b.test", "A.B.Test:{port}", "[::1]:{port}", "[::1]", "localhost:{port}", "a.b.c.d.test">>
@@ -397,11 +405,11 @@ RequestURI(u) == (IF u.esc = << >> THEN <<"/">> ELSE u.esc) \o (IF u.fq \/ u.q #
 
 \* httputil.DumpRequest(r, false) with CR LF written as \r\n (two characters each)
 EOL == <<"\\r\\n">>
-Dump(x) ==
+Dump(x, lines) ==
     <<x.m, " ">> \o TargetToks(x) \o <<" ", "HTTP/" \o x.ver>> \o EOL
     \o (IF x.form = "absolute" THEN << >> ELSE <<"Host: ">> \o HostToks(x) \o EOL)
     \o (IF x.chunked THEN <<"Transfer-Encoding: chunked">> \o EOL ELSE << >>)
-    \o Flat([i \in 1..Len(HeaderLines(x)) |-> <<HeaderLines(x)[i].n, ": ">> \o HeaderLines(x)[i].v \o EOL])
+    \o Flat([i \in 1..Len(lines) |-> <<lines[i].n, ": ">> \o lines[i].v \o EOL])
     \o EOL
 
 CanLogBody(x) == x.m \in {"POST", "PUT"} /\ CTY(x.ctype).can
@@ -409,6 +417,7 @@ CanLogBody(x) == x.m \in {"POST", "PUT"} /\ CTY(x.ctype).can
 \* ---- 6. state -------------------------------------------------------------------------------------
 VARIABLES
     x,          \* the exchange (never changes)
+    hdrs,       \* r.Header as the chain (and the log's replacer) sees it: lines [n, v] sorted by name
     pc,
     url,        \* r.URL as the chain sees it now
     orig,       \* the copy under OriginalURLCtxKey
@@ -421,23 +430,25 @@ VARIABLES
     rec,        \* log's ResponseRecorder: [on, start, status, size, hdr]
     clk,        \* the logical clock
     ret,        \* status travelling back up the chain
-    inner,      \* what the innermost handler did: [ran, data, err]
+    inner,      \* what the innermost handler (or the proxy's backend) did: [ran, data, err]
+    upOut,      \* the value of the header_upstream rule the backend received
     k,          \* index of the placeholder being expanded
     hdrOut,     \* values of the header rule, one per placeholder
     logOut,     \* values of the log entry
     whenH, whenL,   \* clock readings of the {when*} placeholders
     entry,      \* the entry as written to the log file: one value per placeholder
     wire        \* what the client gets: [status, xvocab, xresp]
-vars == <<x, pc, url, orig, pre, custom, body, tee, ctx, rec, clk, ret, inner, k, hdrOut, logOut, whenH, whenL, entry, wire>>
+vars == <<x, hdrs, pc, url, orig, pre, custom, body, tee, ctx, rec, clk, ret, inner, upOut, k, hdrOut, logOut, whenH, whenL, entry, wire>>
 
 NoLim == MaxLog * 2
 NoURL == URL(<<"?">>, <<"?">>, << >>, FALSE)
 Init ==
     /\ x \in Exchanges
+    /\ hdrs = << >>
     /\ pc = "read" /\ url = NoURL /\ orig = NoURL /\ pre = NoURL /\ custom = {}
     /\ body = [src |-> << >>, ahead |-> << >>, lim |-> NoLim, err |-> "-"] /\ tee = [on |-> FALSE, buf |-> << >>]
     /\ ctx = [reqid |-> FALSE, mitm |-> "-"] /\ rec = [on |-> FALSE, start |-> 0, status |-> 0, body |-> << >>, hdr |-> << >>]
-    /\ clk = 0 /\ ret = 0 /\ inner = [ran |-> FALSE, data |-> << >>, err |-> "-"]
+    /\ clk = 0 /\ ret = 0 /\ inner = [ran |-> FALSE, data |-> << >>, err |-> "-"] /\ upOut = << >>
     /\ k = 0 /\ hdrOut = << >> /\ logOut = << >> /\ whenH = << >> /\ whenL = << >> /\ entry = << >>
     /\ wire = [status |-> 0, xvocab |-> << >>, xresp |-> << >>]
 
@@ -449,47 +460,48 @@ NetRead ==      \* net/http: r.URL parsed from the target, r.Body the declared b
     /\ Step("read", IF IsTLS(x.conn) THEN "mitm" ELSE "copyurl")
     /\ url' = ParsedURL(x)
     /\ body' = [body EXCEPT !.src = BT(x.body)]
-    /\ UNCHANGED <<x, orig, pre, custom, tee, ctx, rec, ret, inner, k, hdrOut, logOut, whenH, whenL, entry, wire>>
+    /\ hdrs' = HeaderLines(x)
+    /\ UNCHANGED <<x, orig, pre, custom, tee, ctx, rec, ret, inner, upOut, k, hdrOut, logOut, whenH, whenL, entry, wire>>
 
 Mitm ==         \* tlsHandler.ServeHTTP: a verdict only for a browser's User-Agent; Go's hello is no browser's
     /\ Step("mitm", "copyurl")
     /\ ctx' = [ctx EXCEPT !.mitm = IF x.ua = "firefox" THEN "likely" ELSE "-"]
-    /\ UNCHANGED <<x, url, orig, pre, custom, body, tee, rec, ret, inner, k, hdrOut, logOut, whenH, whenL, entry, wire>>
+    /\ UNCHANGED <<x, hdrs, url, orig, pre, custom, body, tee, rec, ret, inner, upOut, k, hdrOut, logOut, whenH, whenL, entry, wire>>
 
 CopyURL ==      \* urlCopy := *r.URL; context.WithValue(.., OriginalURLCtxKey, urlCopy)
     /\ Step("copyurl", "replacer")
     /\ orig' = url
-    /\ UNCHANGED <<x, url, pre, custom, body, tee, ctx, rec, ret, inner, k, hdrOut, logOut, whenH, whenL, entry, wire>>
+    /\ UNCHANGED <<x, hdrs, url, pre, custom, body, tee, ctx, rec, ret, inner, upOut, k, hdrOut, logOut, whenH, whenL, entry, wire>>
 
 MakeReplacer == \* NewReplacer: r.Body = TeeReader(r.Body, newLimitWriter(MaxLogBodySize)); customReplacements = {}
     /\ Step("replacer", "trim")
     /\ tee' = [on |-> TRUE, buf |-> << >>]
     /\ custom' = {}
-    /\ UNCHANGED <<x, url, orig, pre, body, ctx, rec, ret, inner, k, hdrOut, logOut, whenH, whenL, entry, wire>>
+    /\ UNCHANGED <<x, hdrs, url, orig, pre, body, ctx, rec, ret, inner, upOut, k, hdrOut, logOut, whenH, whenL, entry, wire>>
 
 \* serveHTTP: the site keyed :port/base sees the path with the base cut off (trimPathPrefix, see ServerFront.tla)
 LeadSlash(s) == IF s # << >> /\ s[1] = "/" THEN s ELSE <<"/">> \o s
 TrimPrefix ==
     /\ Step("trim", "limits")
     /\ url' = IF Scoped(x) THEN [url EXCEPT !.dec = LeadSlash(From(url.dec, 3)), !.esc = LeadSlash(From(url.esc, 3))] ELSE url
-    /\ UNCHANGED <<x, orig, pre, custom, body, tee, ctx, rec, ret, inner, k, hdrOut, logOut, whenH, whenL, entry, wire>>
+    /\ UNCHANGED <<x, hdrs, orig, pre, custom, body, tee, ctx, rec, ret, inner, upOut, k, hdrOut, logOut, whenH, whenL, entry, wire>>
 
 PathUnder(p, seg) == Len(p) >= 2 /\ p[1] = "/" /\ p[2] = seg /\ (Len(p) = 2 \/ p[3] = "/")     \* httpserver.Path.Matches
 Limits ==       \* limits: r.Body = MaxBytesReader(w, r.Body, LIM) for paths under /lim
     /\ Step("limits", "reqid")
     /\ body' = IF PathUnder(url.dec, "lim") THEN [body EXCEPT !.lim = LIM] ELSE body
-    /\ UNCHANGED <<x, url, orig, pre, custom, tee, ctx, rec, ret, inner, k, hdrOut, logOut, whenH, whenL, entry, wire>>
+    /\ UNCHANGED <<x, hdrs, url, orig, pre, custom, tee, ctx, rec, ret, inner, upOut, k, hdrOut, logOut, whenH, whenL, entry, wire>>
 
 RequestID ==    \* request_id: context value RequestIDCtxKey
     /\ Step("reqid", "logenter")
     /\ ctx' = [ctx EXCEPT !.reqid = TRUE]
-    /\ UNCHANGED <<x, url, orig, pre, custom, body, tee, rec, ret, inner, k, hdrOut, logOut, whenH, whenL, entry, wire>>
+    /\ UNCHANGED <<x, hdrs, url, orig, pre, custom, body, tee, rec, ret, inner, upOut, k, hdrOut, logOut, whenH, whenL, entry, wire>>
 
 LogEnter ==     \* log: NewResponseRecorder(w) (start = now), NewReplacer(r, recorder, "-")
     /\ Step("logenter", "rewrite")
     /\ rec' = [rec EXCEPT !.on = TRUE, !.start = clk, !.hdr = << [n |-> "Server", v |-> <<"@appname">>] >>]
     /\ pre' = url                                                            \* preURL := *r.URL
-    /\ UNCHANGED <<x, url, orig, custom, body, tee, ctx, ret, inner, k, hdrOut, logOut, whenH, whenL, entry, wire>>
+    /\ UNCHANGED <<x, hdrs, url, orig, custom, body, tee, ctx, ret, inner, upOut, k, hdrOut, logOut, whenH, whenL, entry, wire>>
 
 \* rewrite { r ^/rw/<rest>$ ; to /nw/{1}?rq=1 }, <rest> = a group of dots: "." matches no LF; Set("1", capture); rewrite.To sets Path and RawQuery,
 \* RawPath goes stale, so EscapedPath() is the default encoding of the new path
@@ -506,7 +518,7 @@ Rewrite ==
                             ELSE [url EXCEPT !.dec = np, !.esc = PathEsc(np), !.q = <<"rq", "=", "1">>]
          ELSE UNCHANGED <<custom, url>>
     /\ k' = 1
-    /\ UNCHANGED <<x, orig, pre, body, tee, ctx, rec, ret, inner, hdrOut, logOut, whenH, whenL, entry, wire>>
+    /\ UNCHANGED <<x, hdrs, orig, pre, body, tee, ctx, rec, ret, inner, upOut, hdrOut, logOut, whenH, whenL, entry, wire>>
 
 \* ---- getSubstitution ---------------------------------------------------------------------------------
 \* reading the whole body: through MaxBytesReader (if any) and the tee; what was handed back comes first and
@@ -534,7 +546,7 @@ Cert(field) == <<"@cert." \o field>>
 Subst(n, withRec, empty) ==
     IF CustomHas(custom, n) THEN CustomGet(custom, n)
     ELSE IF n \in {">X-In", ">x-in", ">X-None"}                         \* strings.EqualFold: any letter case
-         THEN LET h == HdrGet(HeaderLines(x), IF n = ">X-None" THEN "X-None" ELSE "X-In") IN IF h.ok THEN h.v ELSE empty
+         THEN LET h == HdrGet(hdrs, IF n = ">X-None" THEN "X-None" ELSE "X-In") IN IF h.ok THEN h.v ELSE empty
     ELSE IF n \in {"<X-Resp", "<Server", "<X-None"}
          THEN IF ~withRec THEN empty
               ELSE LET h == HdrGet(rec.hdr, CASE n = "<X-Resp" -> "X-Resp" [] n = "<Server" -> "Server" [] OTHER -> "X-None") IN
@@ -571,7 +583,7 @@ Subst(n, withRec, empty) ==
            [] n = "when_unix_ms" -> <<"@when_unix_ms">>
            [] n = "file" -> FileOf(url.dec)
            [] n = "dir" -> DirOf(url.dec)
-           [] n = "request" -> Dump(x)
+           [] n = "request" -> Dump(x, hdrs)
            [] n = "mitm" -> IF ctx.mitm = "-" THEN <<"unknown">> ELSE <<ctx.mitm>>
            [] n = "status" -> IF withRec THEN <<"@status">> ELSE empty
            [] n = "size" -> IF withRec THEN <<"@size">> ELSE empty
@@ -600,17 +612,21 @@ Subst(n, withRec, empty) ==
 IsWhen(n) == n \in {"when", "when_iso_local", "when_iso", "when_unix", "when_unix_ms"}
 IsLatency(n) == n \in {"latency", "latency_ms"}
 
-\* one getSubstitution call; {request_body} is the one placeholder with an effect: it reads the rest of the body
+\* the {request_body} branch of getSubstitution, the one placeholder with an effect: it reads the rest of the body
+BodyPh(empty) ==
+    IF ~CanLogBody(x) THEN [v |-> empty, body |-> body, tee |-> tee]
+    ELSE LET r == ReadAll(body)
+             t == TeeAdd(tee, r.fresh)
+         IN  [v |-> IF r.err = "max" THEN empty ELSE EscNL(t.buf),
+              \* repaired: what was read ahead is put back in front of the body; as found the body stays at its end
+              body |-> IF FIX_BODY THEN [r.after EXCEPT !.ahead = r.data] ELSE r.after,
+              tee |-> t]
+
+\* one getSubstitution call
 EvalStep(out, whens, withRec, empty) ==
     LET n == Names[k] IN
     /\ IF n = "request_body" /\ ~CustomHas(custom, n)
-         THEN IF ~CanLogBody(x)
-                THEN out' = Append(out, empty) /\ UNCHANGED <<body, tee>>
-                ELSE LET r == ReadAll(body)
-                         t == TeeAdd(tee, r.fresh)
-                     IN  /\ tee' = t
-                         /\ body' = IF FIX_BODY THEN [r.after EXCEPT !.ahead = r.data] ELSE r.after
-                         /\ out' = Append(out, IF r.err = "max" THEN empty ELSE EscNL(t.buf))
+         THEN LET b == BodyPh(empty) IN out' = Append(out, b.v) /\ body' = b.body /\ tee' = b.tee
          ELSE out' = Append(out, Subst(n, withRec, empty)) /\ UNCHANGED <<body, tee>>
     /\ whens' = IF IsWhen(n) \/ (IsLatency(n) /\ withRec) THEN Append(whens, [n |-> n, t |-> clk]) ELSE whens   \* now()
     /\ k' = k + 1
@@ -619,23 +635,23 @@ EvalStep(out, whens, withRec, empty) ==
 HdrEval ==      \* header: replacer.Replace(value) - NewReplacer(r, nil, ""): one placeholder
     /\ pc = "hdr" /\ k <= NN
     /\ EvalStep(hdrOut, whenH, FALSE, << >>)
-    /\ UNCHANGED <<x, pc, url, orig, pre, custom, ctx, rec, ret, inner, logOut, whenL, entry, wire>>
+    /\ UNCHANGED <<x, hdrs, pc, url, orig, pre, custom, ctx, rec, ret, inner, upOut, logOut, whenL, entry, wire>>
 HdrDone ==      \* rww.Header().Set(name, value); Next.ServeHTTP
     /\ pc = "hdr" /\ k = NN + 1
     /\ pc' = "auth" /\ Tick
     /\ rec' = [rec EXCEPT !.hdr = Append(@, [n |-> "X-Vocab", v |-> <<"@self">>])]
-    /\ UNCHANGED <<x, url, orig, pre, custom, body, tee, ctx, ret, inner, k, hdrOut, logOut, whenH, whenL, entry, wire>>
+    /\ UNCHANGED <<x, hdrs, url, orig, pre, custom, body, tee, ctx, ret, inner, upOut, k, hdrOut, logOut, whenH, whenL, entry, wire>>
 
 \* basicauth /auth alice pw: the supplied name is recorded with Set("user", ..), also for a refused login
 BasicAuth ==
     /\ pc = "auth" /\ Tick
     /\ IF ~PathUnder(url.dec, "auth")
-         THEN pc' = "inner" /\ UNCHANGED <<custom, ret>>
+         THEN pc' = (IF PathUnder(url.dec, "px") THEN "proxyout" ELSE "inner") /\ UNCHANGED <<custom, ret>>
          ELSE IF x.auth = "good"
                 THEN pc' = "inner" /\ custom' = Put(custom, "user", AuthUser("good")) /\ UNCHANGED ret
                 ELSE /\ pc' = "failover" /\ ret' = 401
                      /\ custom' = IF x.auth = "-" /\ FIX_NOUSER THEN custom ELSE Put(custom, "user", AuthUser(x.auth))
-    /\ UNCHANGED <<x, url, orig, pre, body, tee, ctx, rec, inner, k, hdrOut, logOut, whenH, whenL, entry, wire>>
+    /\ UNCHANGED <<x, hdrs, url, orig, pre, body, tee, ctx, rec, inner, upOut, k, hdrOut, logOut, whenH, whenL, entry, wire>>
 
 InnerRead ==    \* verifprobe "read:K": reads r.Body until an error
     /\ pc = "inner" /\ Tick
@@ -645,11 +661,11 @@ InnerRead ==    \* verifprobe "read:K": reads r.Body until an error
               /\ inner' = [ran |-> TRUE, data |-> r.data, err |-> r.err]
               /\ body' = r.after /\ tee' = TeeAdd(tee, r.fresh)
          ELSE inner' = [inner EXCEPT !.ran = TRUE] /\ UNCHANGED <<body, tee>>
-    /\ UNCHANGED <<x, url, orig, pre, custom, ctx, rec, ret, k, hdrOut, logOut, whenH, whenL, entry, wire>>
+    /\ UNCHANGED <<x, hdrs, url, orig, pre, custom, ctx, rec, ret, upOut, k, hdrOut, logOut, whenH, whenL, entry, wire>>
 InnerSleep ==   \* "sleep:MS"
     /\ pc = "sleep" /\ pc' = "respond"
     /\ clk' = clk + 1 + Scr(x.inner).sleep
-    /\ UNCHANGED <<x, url, orig, pre, custom, body, tee, ctx, rec, ret, inner, k, hdrOut, logOut, whenH, whenL, entry, wire>>
+    /\ UNCHANGED <<x, hdrs, url, orig, pre, custom, body, tee, ctx, rec, ret, inner, upOut, k, hdrOut, logOut, whenH, whenL, entry, wire>>
 InnerRespond == \* "hdr:..;status:N;text:S" or "ret:404"
     /\ Step("respond", "failover")
     /\ LET s == Scr(x.inner) IN
@@ -657,7 +673,33 @@ InnerRespond == \* "hdr:..;status:N;text:S" or "ret:404"
        ELSE /\ ret' = 0
             /\ rec' = [rec EXCEPT !.status = s.status, !.body = <<s.text>>,
                                   !.hdr = @ \o [i \in 1..Len(s.xresp) |-> [n |-> "X-Resp", v |-> s.xresp[i]]]]
-    /\ UNCHANGED <<x, url, orig, pre, custom, body, tee, ctx, inner, k, hdrOut, logOut, whenH, whenL, entry, wire>>
+    /\ UNCHANGED <<x, hdrs, url, orig, pre, custom, body, tee, ctx, inner, upOut, k, hdrOut, logOut, whenH, whenL, entry, wire>>
+
+\* proxy /px backend { header_upstream X-Up-Body "[{request_body}]" }: the rule is expanded for the outgoing request
+\* (NewReplacer(r, nil, "")), then the transport sends the body - the backend reads it and answers with a report
+\* createUpstreamRequest: outreq is a shallow copy of r - the header MAP is shared until it is copied; X-Forwarded-For was
+\* set without copying (as found): the incoming request, and with it {request} of the log entry, got a header the client
+\* never sent
+AddXFF(lines) == LET i == IF \E j \in 1..Len(lines) : lines[j].n \in {"X-In", "X-Probe"}
+                             THEN CHOOSE j \in 1..Len(lines) : lines[j].n \in {"X-In", "X-Probe"} /\ \A m \in 1..(j - 1) : lines[m].n \notin {"X-In", "X-Probe"}
+                             ELSE Len(lines) + 1
+                 IN  Upto(lines, i - 1) \o <<HL("X-Forwarded-For", <<"@remote">>)>> \o From(lines, i)
+ProxyOutreq ==
+    /\ Step("proxyout", "proxyrule")
+    /\ hdrs' = IF FIX_XFF THEN hdrs ELSE AddXFF(hdrs)
+    /\ UNCHANGED <<x, url, orig, pre, custom, body, tee, ctx, rec, ret, inner, upOut, k, hdrOut, logOut, whenH, whenL, entry, wire>>
+ProxyRule ==
+    /\ pc = "proxyrule" /\ pc' = "forward" /\ Tick
+    /\ LET b == BodyPh(<< >>) IN upOut' = <<"[">> \o b.v \o <<"]">> /\ body' = b.body /\ tee' = b.tee
+    /\ UNCHANGED <<x, hdrs, url, orig, pre, custom, ctx, rec, ret, inner, k, hdrOut, logOut, whenH, whenL, entry, wire>>
+ProxyForward ==
+    /\ Step("forward", "failover")
+    /\ LET r == ReadAll(body) IN
+       /\ inner' = [ran |-> TRUE, data |-> r.data, err |-> r.err]
+       /\ body' = r.after /\ tee' = TeeAdd(tee, r.fresh)
+    /\ rec' = [rec EXCEPT !.status = 200, !.body = <<"@report">>]
+    /\ ret' = 0
+    /\ UNCHANGED <<x, hdrs, url, orig, pre, custom, ctx, upOut, k, hdrOut, logOut, whenH, whenL, entry, wire>>
 
 \* log: if status >= 400 { r.URL = &preURL; ErrorFunc(recorder, r, status) } - the error text goes through the recorder.
 \* The error function, and after it the entry, see the URL as log received it: a rewrite is no longer visible in the
@@ -666,35 +708,36 @@ LogFailover ==
     /\ Step("failover", "ipmask")
     /\ rec' = IF ret >= 400 THEN [rec EXCEPT !.status = ret, !.body = <<"@errtext">>] ELSE rec
     /\ url' = IF ret >= 400 THEN pre ELSE url
-    /\ UNCHANGED <<x, orig, pre, custom, body, tee, ctx, ret, inner, k, hdrOut, logOut, whenH, whenL, entry, wire>>
+    /\ UNCHANGED <<x, hdrs, orig, pre, custom, body, tee, ctx, ret, inner, upOut, k, hdrOut, logOut, whenH, whenL, entry, wire>>
 
 IpMask ==       \* log { ipmask 255.255.0.0 } (sites p2, t2): rep.Set("remote", masked) - a custom value under a built-in name
     /\ Step("ipmask", "log")
     /\ custom' = IF Scoped(x) THEN Put(custom, "remote", <<"@remote.masked">>) ELSE custom
     /\ k' = 1
-    /\ UNCHANGED <<x, url, orig, pre, body, tee, ctx, rec, ret, inner, hdrOut, logOut, whenH, whenL, entry, wire>>
+    /\ UNCHANGED <<x, hdrs, url, orig, pre, body, tee, ctx, rec, ret, inner, upOut, hdrOut, logOut, whenH, whenL, entry, wire>>
 
 LogEval ==      \* log: rep.Replace(e.Format) - the replacer made in LogEnter (recorder, "-"): one placeholder
     /\ pc = "log" /\ k <= NN
     /\ EvalStep(logOut, whenL, TRUE, <<"-">>)
-    /\ UNCHANGED <<x, pc, url, orig, pre, custom, ctx, rec, ret, inner, hdrOut, whenH, entry, wire>>
+    /\ UNCHANGED <<x, hdrs, pc, url, orig, pre, custom, ctx, rec, ret, inner, upOut, hdrOut, whenH, entry, wire>>
 
 WriteLine ==    \* e.Log.Println(..): as found the values go out as they are; repaired, CR and LF are written as \r \n
     /\ pc = "log" /\ k = NN + 1
     /\ pc' = "finish" /\ Tick
     /\ entry' = [i \in 1..NN |-> IF FIX_LOGSAFE THEN EscNL(logOut[i]) ELSE logOut[i]]
-    /\ UNCHANGED <<x, url, orig, pre, custom, body, tee, ctx, rec, ret, inner, k, hdrOut, logOut, whenH, whenL, wire>>
+    /\ UNCHANGED <<x, hdrs, url, orig, pre, custom, body, tee, ctx, rec, ret, inner, upOut, k, hdrOut, logOut, whenH, whenL, wire>>
 
 NetFinish ==    \* net/http writes the response; CR / LF inside a header value become spaces
     /\ Step("finish", "done")
     /\ wire' = [status |-> rec.status,
                 xvocab |-> [i \in 1..NN |-> HdrSafe(hdrOut[i])],
                 xresp |-> HdrGet(rec.hdr, "X-Resp").v]
-    /\ UNCHANGED <<x, url, orig, pre, custom, body, tee, ctx, rec, ret, inner, k, hdrOut, logOut, whenH, whenL, entry>>
+    /\ UNCHANGED <<x, hdrs, url, orig, pre, custom, body, tee, ctx, rec, ret, inner, upOut, k, hdrOut, logOut, whenH, whenL, entry>>
 
 Done == pc = "done"
 Next == \/ NetRead \/ Mitm \/ CopyURL \/ MakeReplacer \/ TrimPrefix \/ Limits \/ RequestID \/ LogEnter \/ Rewrite
-        \/ HdrEval \/ HdrDone \/ BasicAuth \/ InnerRead \/ InnerSleep \/ InnerRespond \/ LogFailover \/ IpMask
+        \/ HdrEval \/ HdrDone \/ BasicAuth \/ InnerRead \/ InnerSleep \/ InnerRespond \/ ProxyOutreq \/ ProxyRule \/ ProxyForward
+        \/ LogFailover \/ IpMask
         \/ LogEval \/ WriteLine \/ NetFinish
         \/ (Done /\ UNCHANGED vars)
 Spec == Init /\ [][Next]_vars /\ WF_vars(Next)
@@ -702,7 +745,7 @@ Spec == Init /\ [][Next]_vars /\ WF_vars(Next)
 \* ---- 8. PROPERTIES -------------------------------------------------------------------------------------
 TypeOK ==
     /\ pc \in {"read", "mitm", "copyurl", "replacer", "trim", "limits", "reqid", "logenter", "rewrite", "hdr", "auth",
-               "inner", "sleep", "respond", "failover", "ipmask", "log", "finish", "done"}
+               "inner", "sleep", "respond", "proxyout", "proxyrule", "forward", "failover", "ipmask", "log", "finish", "done"}
     /\ k \in 0..(NN + 1) /\ Len(hdrOut) <= NN /\ Len(logOut) <= NN
     /\ body.err \in {"-", "max"} /\ Bytes(tee.buf) <= MaxLog
 Completes == <>Done
@@ -732,17 +775,25 @@ DeclCurURI(x0, vis) == DeclCurEsc(x0, vis) \o (IF HasQMark(x0.query) \/ (DeclRew
 DeclOrigURI(x0) == Wr(PT(x0.path)) \o (IF HasQMark(x0.query) THEN <<"?">> \o QT(x0.query) ELSE << >>)
 DeclProtected(x0) == PathUnder(DeclCurPath(x0, TRUE), "auth")
 DeclLimited(x0) == PathUnder(DeclScopedPath(x0), "lim")
-DeclAnswered(x0) == ~(DeclProtected(x0) /\ x0.auth # "good")              \* the inner handler runs
-DeclFailedOver(x0) == ~DeclAnswered(x0) \/ Scr(x0.inner).ret >= 400          \* a status >= 400 came back to log unwritten
+DeclProxied(x0) == ~DeclProtected(x0) /\ PathUnder(DeclCurPath(x0, TRUE), "px")    \* the proxy's backend answers
+DeclAnswered(x0) == ~DeclProtected(x0) \/ x0.auth = "good"                    \* the scripted handler or the backend runs
+DeclScripted(x0) == DeclAnswered(x0) /\ ~DeclProxied(x0)                      \* the scripted handler runs
+DeclBusy(x0) == IF DeclScripted(x0) THEN Scr(x0.inner).sleep ELSE 0
+DeclReads(x0) == DeclProxied(x0) \/ (DeclScripted(x0) /\ Scr(x0.inner).read)    \* somebody downstream reads the body
+DeclFailedOver(x0) == ~DeclAnswered(x0) \/ (DeclScripted(x0) /\ Scr(x0.inner).ret >= 400)   \* a status >= 400 came back to log unwritten
 \* the user name the log shows: the supplied one when basicauth looked at it; nothing otherwise
 DeclUser(x0) == IF DeclProtected(x0) /\ x0.auth # "-" THEN [ok |-> TRUE, v |-> AuthUser(x0.auth)] ELSE [ok |-> FALSE, v |-> << >>]
 \* what a handler reading the body gets, whatever placeholders were expanded on the way: the body as sent, cut at the
 \* site's limit
 DeclBodyRead(x0) == IF DeclLimited(x0) /\ Bytes(BT(x0.body)) > LIM THEN [data |-> TakeBytes(BT(x0.body), LIM), err |-> "max"]
                     ELSE [data |-> BT(x0.body), err |-> "-"]
+\* {request_body}: POST / PUT with a JSON or XML content type, a body the site accepts: its first MaxLog bytes on one line
+DeclBodyPh(x0, e) == IF ~(x0.m \in {"POST", "PUT"} /\ CTY(x0.ctype).can) THEN e
+                     ELSE IF DeclBodyRead(x0).err = "max" THEN e
+                     ELSE EscNL(TakeBytes(BT(x0.body), MaxLog))
 DeclRespHdr(x0, name) ==
     IF name = "Server" THEN [ok |-> TRUE, v |-> <<"@appname">>]
-    ELSE IF name = "X-Resp" /\ DeclAnswered(x0) /\ Scr(x0.inner).ret = 0 /\ Scr(x0.inner).xresp # << >>
+    ELSE IF name = "X-Resp" /\ DeclScripted(x0) /\ Scr(x0.inner).ret = 0 /\ Scr(x0.inner).xresp # << >>
          THEN [ok |-> TRUE, v |-> JoinWith(Scr(x0.inner).xresp, <<",">>)]
     ELSE [ok |-> FALSE, v |-> << >>]
 
@@ -782,11 +833,8 @@ Decl(n, x0, where) ==
       [] n = "port" -> <<"@cport">>
       [] n = "request_id" -> <<"@reqid">>
       [] n \in {"when", "when_iso_local", "when_iso", "when_unix", "when_unix_ms"} -> <<"@" \o n>>
-      [] n = "request" -> Dump(x0)
-      [] n = "request_body" ->
-            IF ~(x0.m \in {"POST", "PUT"} /\ CTY(x0.ctype).can) THEN e
-            ELSE IF DeclBodyRead(x0).err = "max" THEN e
-            ELSE EscNL(TakeBytes(BT(x0.body), MaxLog))
+      [] n = "request" -> Dump(x0, HeaderLines(x0))
+      [] n = "request_body" -> DeclBodyPh(x0, e)
       [] n = "mitm" -> <<IF IsTLS(x0.conn) /\ x0.ua = "firefox" THEN "likely" ELSE "unknown">>
       [] n \in {"status", "size", "latency", "latency_ms"} -> IF late THEN <<"@" \o n>> ELSE e
       \* TLSFieldsExact
@@ -844,11 +892,13 @@ LogSafe ==
 HeaderSafe == Done => \A i \in 1..NN : ~RawNL(wire.xvocab[i])
 \* BodyUntouched: the inner handler reads the body as sent (up to the site's limit), whatever was expanded before it ran
 BodyUntouched ==
-    (inner.ran /\ Scr(x.inner).read) => (inner.data = DeclBodyRead(x).data /\ inner.err = DeclBodyRead(x).err)
+    /\ (inner.ran /\ DeclReads(x)) => (inner.data = DeclBodyRead(x).data /\ inner.err = DeclBodyRead(x).err)
+    /\ Done => (inner.ran <=> DeclAnswered(x))
+    /\ (Done /\ DeclProxied(x)) => upOut = <<"[">> \o DeclBodyPh(x, << >>) \o <<"]">>
 \* TimeMonotone: the clock only moves forward: {latency} >= 0 and covers the handler's time; every {when*} of the entry
 \* reads the clock between the handler's end and the write, those of the header rule before the handler started
 TimeMonotone ==
-    Done => LET busy == IF DeclAnswered(x) THEN Scr(x.inner).sleep ELSE 0 IN
+    Done => LET busy == DeclBusy(x) IN
             /\ \A i \in 1..Len(whenL) : whenL[i].t >= rec.start + busy /\ whenL[i].t <= clk      \* {latency} = t - start >= busy >= 0
             /\ \A i \in 1..Len(whenH) : \A j \in 1..Len(whenL) : whenH[i].t + busy < whenL[j].t
             /\ \A i, j \in 1..Len(whenL) : i <= j => whenL[i].t <= whenL[j].t
@@ -872,8 +922,8 @@ Emit == (EMIT /\ Done) =>
     PrintT(<<"CASE", ToJson([x |-> x, site |-> SiteOf(x), target |-> TargetToks(x), hosthdr |-> HostToks(x),
                              headers |-> HeaderLines(x), body |-> BT(x.body), script |-> Scr(x.inner),
                              log |-> entry, hdrdiff |-> HdrDiff, status |-> wire.status, xresp |-> wire.xresp,
-                             read |-> [ran |-> inner.ran /\ Scr(x.inner).read, data |-> inner.data, err |-> inner.err],
-                             answered |-> DeclAnswered(x), sleep |-> Scr(x.inner).sleep])>>)
+                             read |-> [ran |-> inner.ran /\ DeclReads(x), data |-> inner.data, err |-> inner.err],
+                             proxied |-> DeclProxied(x), up |-> upOut, busy |-> DeclBusy(x)])>>)
 \* the vocabulary itself, once (the harness compares it with the source of getSubstitution)
 EmitVocab == (EMIT /\ pc = "read" /\ x = Plain("P", "/x", "q=v")) =>
     PrintT(<<"CASE", ToJson([vocab |-> [fixed |-> FixedNames, prefix |-> PrefixForms, names |-> Names]])>>)
